@@ -1,12 +1,13 @@
 """C16 Base64 codec is RFC 4648 and the key validator accepts exactly 16-byte keys."""
 from . import b64_rules
 LEVEL = 'other'
-RULES = ('R16.t', 'R16.c', 'R16.u', 'R16.a', 'R16.b', 'R16.d', 'R16.v', 'R16.e')
+RULES = ('R16.t', 'R16.c', 'R16.u', 'R16.a', 'R16.b', 'R16.d', 'R16.v', 'R16.e', 'R16.l')
 
 
 def run(prog, rec, tier):
     B = b64_rules.B64Rules(prog, rec)
     B.tables()
+    B.locale_fixed()
     B.encoder()
     B.validator_decoder()
     B.decoder()
